@@ -301,6 +301,143 @@ func (g *c03Group) batchPow(rest []string) string {
 	return strings.Join(o, " ")
 }
 
+// ---- window-boundary batches (op batchwin; mirror of Model/ScalarMul.lean mix64 / winHash / winBoundary / winDigit / winScalar) ----
+//
+//   C03 batchwin - <params> <e> <P> <N> <w> <seed> <m> <i,i,…|->
+//
+// batch of the N scalars whose windows of width w take boundary values (see the model); the answers of the entries of the
+// sample are printed, the model runs its hand model on the first m of them.
+
+func c03Mix64(x uint64) uint64 {
+	x = (x ^ (x >> 30)) * 0xBF58476D1CE4E5B9
+	x = (x ^ (x >> 27)) * 0x94D049BB133111EB
+	return x ^ (x >> 31)
+}
+
+func c03WinHash(seed, i, j uint64) uint64 {
+	return c03Mix64(seed + i*0x9E3779B97F4A7C15 + j*0xD1B54A32D192ED03 + 1)
+}
+
+func c03WinBoundary(w, k uint64) uint64 {
+	h := uint64(1) << (w - 1)
+	return []uint64{0, 2*h - 1, 1, h, h - 1, h + 1}[k]
+}
+
+// monus
+func c03Monus(a, b uint64) uint64 {
+	if a < b {
+		return 0
+	}
+	return a - b
+}
+
+func c03WinDigit(w, nb, topR, seed, i, j uint64) uint64 {
+	h := c03WinHash(seed, i, j)
+	mask := uint64(1)<<w - 1
+	half := uint64(1) << (w - 1)
+	if j+1 == nb {
+		t := []uint64{0, 1, half - 1, half, half + 1, mask, c03Monus(topR, 1), c03Monus(topR, 2), h & mask}[i%9]
+		if t < c03Monus(topR, 1) {
+			return t
+		}
+		return c03Monus(topR, 1)
+	}
+	if j+2 == nb {
+		return c03WinBoundary(w, (i+2*(i/9))%6) & mask
+	}
+	if h%8 < 6 {
+		return c03WinBoundary(w, h%8) & mask
+	}
+	return (h / 8) & mask
+}
+
+// scalar i of the family (w in 2..16)
+func c03WinScalar(r *big.Int, w, seed, i uint64) *big.Int {
+	bits := uint64(r.BitLen())
+	nb := (bits + w - 1) / w
+	topR := new(big.Int).Rsh(r, uint(w*(nb-1))).Uint64()
+	s := new(big.Int)
+	for j := uint64(0); j < nb; j++ {
+		d := new(big.Int).SetUint64(c03WinDigit(w, nb, topR, seed, i, j))
+		s.Add(s, d.Lsh(d, uint(w*j)))
+	}
+	return s
+}
+
+func (g *c03Group) batchWin(rest []string) string {
+	if len(rest) != 7 || g.batch == nil {
+		return "bad-op"
+	}
+	if g.naive(parseBig(rest[0])) != rest[1] {
+		return "bad-point"
+	}
+	n, w, seed := parseBig(rest[2]), parseBig(rest[3]), parseBig(rest[4])
+	if n.Sign() < 0 || n.Cmp(big.NewInt(c03BatchMax)) > 0 || w.Sign() < 0 || w.Cmp(big.NewInt(2)) < 0 || w.Cmp(big.NewInt(16)) > 0 ||
+		seed.Sign() < 0 || seed.BitLen() > 64 || parseBig(rest[5]).Sign() < 0 {
+		return "bad-op"
+	}
+	N := int(n.Int64())
+	var idx []int
+	if rest[6] != "-" {
+		for _, t := range strings.Split(rest[6], ",") {
+			v := parseBig(t)
+			if v.Sign() < 0 || v.Cmp(n) >= 0 {
+				return "bad-op"
+			}
+			idx = append(idx, int(v.Int64()))
+		}
+	}
+	ss := make([]*big.Int, N)
+	for i := range ss {
+		ss[i] = c03WinScalar(g.r, w.Uint64(), seed.Uint64(), uint64(i))
+	}
+	for _, i := range idx {
+		if ss[i].Cmp(g.r) >= 0 {
+			return "bad-scalar"
+		}
+	}
+	res := g.batch(rest[1], ss)
+	if len(idx) == 0 {
+		if (res == "-") != (N == 0) {
+			return "bad-length"
+		}
+		return "-"
+	}
+	pts := strings.Split(res, " ")
+	if len(pts) != N {
+		return "bad-length"
+	}
+	var o []string
+	for _, i := range idx {
+		o = append(o, pts[i])
+	}
+	return strings.Join(o, " ")
+}
+
+// (lo, hi, c): the batch lengths lo..hi select the window c, for every window the cost model can select up to max
+func c03WindowRanges(bits uint64, max int) [][3]int {
+	var out [][3]int
+	lo := 0
+	for lo <= max {
+		c := c03BestC(bits, uint64(lo))
+		a, b := lo, max+1 // c at a, (another window or the end) at b
+		if c03BestC(bits, uint64(max)) == c {
+			a = max
+		}
+		for b-a > 1 {
+			m := (a + b) / 2
+			if c03BestC(bits, uint64(m)) == c {
+				a = m
+			} else {
+				b = m
+			}
+		}
+		out = append(out, [3]int{lo, a, c})
+		lo = a + 1
+	}
+	return out
+}
+
 // class (d): scalars far outside [0, r) — both signs, 1× … 4× (and more) the bit length of the order, beyond the 64·fr.Limbs bits
 // of the word array the loops index. Three zones of total bit length T: A = just above r up to just past the word array,
 // B = around twice the order (1.5n … 2.5n: where a rounded GLV decomposition starts to return negative / over-long halves),
